@@ -142,5 +142,5 @@ const ruleC01 = "rapid draws well-formed Packet models (version 0-3, PT 0-127, 0
 func TestC01(t *testing.T) {
 	r := begin(t, "C01", "exploration", ruleC01)
 	defer r.finish()
-	subC01.rapidRun(r, n(30000, 400000), genPacketModel)
+	subC01.rapidRun(r, n(30000, 800000), genPacketModel)
 }
